@@ -28,7 +28,8 @@ def tasks(tier, seed):
         P = families.select(P, 600, seed) + families.corpus()
     out = []
     for i, p in enumerate(P):
-        out.append(dict(p, opts={"backend": BACKENDS[i % 3] if tier == "quick" else None}))
+        one = tier == "quick" and p["family"] not in ("WIDE", "NOPARAM", "LAYOUT")   # one-of-a-kind programs: every backend
+        out.append(dict(p, opts={"backend": BACKENDS[i % 3] if one else None}))
     # the remove-unused option and the argument-order option must not change what Euler computes
     from . import c12, c04
     for i, t in enumerate(c12.UNUSED + c04.EXTRA):
